@@ -43,6 +43,8 @@ func runC03(p *load.Program, r *oblig.Report) {
 	c03ReadMessageKeeps(p, r)
 	c03SyncGroupMembers(p, r)
 	c03StartOffsetOnMiss(p, r)
+	c03ForgetFailedMember(p, r, "C03.R16 a member id that failed is not used again")
+	c03LeaderBySelf(p, r, "C03.R17 the elected leader recognises itself")
 	shareRules(r, "C03", "C03.R14 the leader assigns the partitions of every topic a member subscribes to (C14.R4)", func(sub *oblig.Report) { c14Leader(p, sub) })
 }
 
